@@ -129,6 +129,23 @@ def run(ctx):
     if not thorough:
         items = items[:1500]
     verify_stage(ctx, items)
+    # 4b. maximum lifetime (exactly 7 days) across a daylight-saving change, verified with the process's local zone set to zones that
+    #     do / do not change in that week: "every instant of [date, expires]" does not depend on where the verifier runs
+    dops, dmeta = [], []
+    for ver in VERS:
+        for d0 in (1520251200, 1521892800, 1540641600):
+            for life in (604800, 601201):
+                e = rand_exchange(rng, ver, payload=rbytes(rng, 40))
+                dops.append(f'sxg.sign {exs(e)} 16 {keys[0]["cert"]} {keys[0]["key"]} {hexs(certurl)} {hexs(vurl)} {d0} {d0 + life}')
+                dmeta.append((d0, life))
+    ditems, dtz = [], {}
+    for r, (d0, life) in zip(ctx.go(dops), dmeta):
+        e = parse_ex(r) if r else None
+        if not e: continue
+        for t in ((d0, 0), (d0 + life // 2, 1), (d0 + life, 0)):
+            dtz[len(ditems)] = ['America/New_York', 'Europe/Berlin', 'Australia/Sydney', 'UTC']
+            ditems.append((e, t, {certurl: keys[0]['chain']}))
+    verify_stage(ctx, ditems, tz=dtz)
     # 5. length boundaries of the writer
     ops = []
     for ver in VERS:
@@ -152,3 +169,6 @@ def run(ctx):
     # what the writer accepted at the length boundaries must read back (every version has its own limits: 1b1 only the field widths)
     bfiles = [x.split(' ')[1] for op, x in zip(ops, g5) if op.startswith('sxg.write ') and x and x.startswith('ok ')]
     read_stage(ctx, bfiles)
+    # the same round trip through the real tools (gen-signedexchange -> file / stdout -> dump-signedexchange -verify)
+    import c20
+    c20.sxg_cli_stage(ctx, rng, thorough)
